@@ -253,21 +253,35 @@ def run(ctx):
             kind[f.key] = "delegates" if whole and len(fam) == 1 else "bad-delegation"
             target[f.key] = s_.raw["callee"]["resolved"]["key"]
             continue
+        from ..core import poly as PL
+
+        def _pa(t):
+            pr_ = F.projection_root(t)
+            if pr_ and pr_[0].op == "param":
+                return "%s%s" % (pr_[0].a[1], pr_[1])
+            return None
+
+        def _is_sum(t, name):
+            return t is not None and PL.named(PL.poly(t, _pa)) == {("self.%s" % name,): 1, ("rhs.%s" % name,): 1}
+
         if f.name == "add":
             ok = r.op == "agg" and r.a[0][1:2] == ("ElGamalCiphertext",)
             if ok:
                 fields = dict(zip(r.a[0][3], r.a[1]))
-                ok = _fieldwise(fields.get("c1"), "c1") and _fieldwise(fields.get("c2"), "c2")
+                ok = _is_sum(fields.get("c1"), "c1") and _is_sum(fields.get("c2"), "c2")
             kind[f.key] = "field-wise" if ok else "other: " + show(r, 4)
         else:
-            eff = []
-            for bb, s_ in sorted(ev.sites.items()):
-                if s_.callee[0] == "AddAssign::add_assign":
-                    tgt = strip_sites(s_.args[0])
-                    src = strip_sites(s_.args[1])
-                    eff.append((_field_of(tgt), _field_of(src)))
-            ok = len(eff) == 2 and sorted(e[0] for e in eff) == ["c1", "c2"] and all(e[0] == e[1] for e in eff)
-            kind[f.key] = "field-wise" if ok else "other: in-place updates %s" % eff
+            # the value `*self` is left with, field by field (writes through the `&mut self` parameter are modelled)
+            fin = [strip_sites(v) for v in ev.param_effects.get(1, [])]
+            names = [x["name"] for x in P.adts["ElGamalCiphertext"]["variants"][0]["fields"]] if "ElGamalCiphertext" in P.adts else ["c1", "c2"]
+            ok = bool(fin)
+            shown = []
+            for v in fin:
+                for idx, nm in enumerate(names):
+                    fv = _final_field(v, idx, nm)
+                    shown.append("%s=%s" % (nm, PL.show_poly(PL.poly(fv, _pa), show) if fv is not None else None))
+                    ok = ok and _is_sum(fv, nm)
+            kind[f.key] = "field-wise" if ok else "other: in-place updates %s" % shown
     for f in adds:
         chain = [f.key]
         cur = f.key
@@ -363,6 +377,22 @@ def _check_responses(ctx, P, pr, vf):
                 continue
             got = PL.named(PL.poly(strip_sites(x), vatom))
             ctx.ob("E5.response", vf.key + "/" + label, got == want[label], "verifier's %s = %s (documented: %s)" % (label, PL.show_poly(PL.poly(strip_sites(x), vatom), show), PL.show_poly(want[label])), where=where(vf))
+
+
+def _final_field(v, idx, name):
+    """Field `idx` of a struct value after a chain of field updates (`upd`), None when the chain cannot be read."""
+    from ..core.terms import mk_field
+
+    while v.op == "upd":
+        base, path, val = v.a
+        if path and path[0][0] == "f" and path[0][1] == idx:
+            if len(path) == 1:
+                return val
+            return None
+        if not path or path[0][0] != "f":
+            return None
+        v = base
+    return mk_field(v, idx, name)
 
 
 def _field_of(t):
